@@ -15,12 +15,30 @@ theorem rr_is_single_fetch_add :
     rrAccesses = pickRepairedAccesses ∧ rrPlainReadsOfTotal = 0 ∧ rrAtomicOps = 1 ∧
     rrIndexFromAtomicResult = true := by decide
 
-/-- `GlobCache.Get` is `getRepaired`: the struct has a mutex, the only shared access before `Lock()` is the
-fast-path `m.Load`, everything else (re-check, ring bookkeeping, map mutation — in the order of the model's
-`gRecheck :: slowPath`) lies after it with the `Unlock` deferred, and no other function touches the ring. -/
+/-- the accesses of the slow path that change the cache -/
+def globMutations : List String := ["m.Store", "m.Delete", "write l", "write h", "write n"]
+
+/-- every access of `GlobCache.Get` the model knows: loads, stores and deletes of the map, reads and writes of ring,
+head and count (no `LoadOrStore`, `Swap`, `Range`, …) -/
+def globKnownAccesses : List String :=
+  ["m.Load", "m.Store", "m.Delete", "read l", "read h", "read n", "write l", "write h", "write n"]
+
+/-- **The slow path of `GlobCache.Get` is one critical section** (`gSlowLocked` of the model), stated as a relation
+between the accesses and the lock, not as a spelled-out list: the struct has a mutex; `Get` takes it and defers the
+unlock; BEFORE the lock there is nothing but the fast-path `m.Load` (no access to `l`/`h`/`n`, no mutation of the map);
+UNDER the lock the first access is the re-check `m.Load` (two goroutines that missed the same pattern must not both
+insert it), every access is one the model knows, and all the bookkeeping (`Store`, `Delete`, ring, head, count) is
+there; nothing of the cache is touched after a helper released the lock; no other function touches `l/h/n/m`.
+The ORDER of the statements inside the critical section is not part of the obligation (one micro-step for every
+other goroutine; what the statements compute is compared call by call by `c06.globcache`): it is pinned by the
+change detector `Props/C06Pins.lean`. -/
 theorem globcache_slow_path_is_locked :
     globHasMutex = true ∧ globGetLocks = true ∧ globGetUnlockDeferred = true ∧
-    globGetUnlocked = getRepairedUnlocked ∧ globGetLocked = getRepairedLocked ∧
+    globGetUnlocked.all (fun e => e == "m.Load") = true ∧
+    globGetLocked.head? = some "m.Load" ∧
+    globGetLocked.all (fun e => globKnownAccesses.contains e) = true ∧
+    globMutations.all (fun e => globGetLocked.contains e) = true ∧
+    globGetAfterUnlock = [] ∧
     globOtherAccessors = [] := by decide
 
 /-- The shared writes on the lookup path are exactly the model's: the atomic cursor add and the cache
